@@ -1,10 +1,11 @@
 (* Private extraction file of the tmap slice (copy of Extract.v naming only the tmap
-   entry points).  At integration add to coq/Extract.v:
+   entry points).  At integration add to the Extraction list of coq/Extract.v:
      TmapModel.tmap_alloc TmapModel.tmap_add TmapModel.tmap_rate TmapModel.tmap_unchecked
      TmapModel.tmap_sample_id_to_timestamp TmapModel.tmap_timestamp_to_sample_id
-     TmapModel.tmap_sample_id_to_timestamp_fixed TmapModel.tmap_timestamp_to_sample_id_fixed
-     TmapModel.TMAP_ERROR_UNAVAILABLE TmapModel.TMAP_TIME_SECOND
-   and `TmapModel` to the Require line. *)
+     TmapModel.tmap_sample_id_to_timestamp_old TmapModel.tmap_timestamp_to_sample_id_old
+     TmapModel.TMAP_ERROR_UNAVAILABLE TmapModel.TMAP_TIME_SECOND TmapModel.TMAP_CELL_BYTES
+     Generated.JLS_ERROR_PARAMETER_INVALID Generated.SIZEOF_utc_summary_entry
+   and `QArith` / `TmapModel` to the two Require lines. *)
 From Coq Require Import Extraction ExtrOcamlBasic NArith ZArith QArith List.
 From JLS Require Import Generated TmapModel.
 Extraction Language OCaml.
@@ -12,6 +13,6 @@ Extraction "jlsmodel_ext"
   BinInt.Z.add BinInt.Z.opp BinInt.Z.of_N BinInt.Z.to_N BinNat.N.add BinNat.N.mul BinNat.N.of_nat BinNat.N.to_nat
   TmapModel.tmap_alloc TmapModel.tmap_add TmapModel.tmap_rate TmapModel.tmap_unchecked
   TmapModel.tmap_sample_id_to_timestamp TmapModel.tmap_timestamp_to_sample_id
-  TmapModel.tmap_sample_id_to_timestamp_fixed TmapModel.tmap_timestamp_to_sample_id_fixed
-  TmapModel.TMAP_ERROR_UNAVAILABLE TmapModel.TMAP_TIME_SECOND
-  Generated.TMAP_ENTRIES_ALLOC_INIT Generated.SIZEOF_utc_summary_entry.
+  TmapModel.tmap_sample_id_to_timestamp_old TmapModel.tmap_timestamp_to_sample_id_old
+  TmapModel.TMAP_ERROR_UNAVAILABLE TmapModel.TMAP_TIME_SECOND TmapModel.TMAP_CELL_BYTES
+  Generated.JLS_ERROR_PARAMETER_INVALID Generated.SIZEOF_utc_summary_entry.
